@@ -52,11 +52,13 @@ def end_tag(rng, tag):
 
 
 def comment(rng):
+    if rng.random() < 0.25: return '<!-- ' + tag_soup(rng, (), sep=rng.choice([' ', '\n', '\n\n'])) + ' -->'
     body = rng.choice([' c ', 'c', ' *x* ', ' multi\nline ', ' with\n\nblank ', ' a - b ', ' <div> ', ' </div> ', ' # h\n- li ', '', ' x > y ', ' &amp; ', ' `c` '])
     return '<!--' + body + '-->'
 
 
 def pi(rng):
+    if rng.random() < 0.3: return '<?php echo "' + tag_soup(rng, ()) + '"; ?>'
     return '<?' + rng.choice(['php echo 1; ', 'xml version="1.0"', 'x', 'php\n*x*\n', 'php\n\nblank\n', ' a > b ']) + '?>'
 
 
@@ -65,7 +67,47 @@ def decl(rng):
 
 
 def cdata(rng):
+    if rng.random() < 0.3: return '<![CDATA[ ' + tag_soup(rng, ()) + ' ]]>'
     return '<![CDATA[' + rng.choice([' x ', '*x*', 'a\nb', 'a ] b', '<div>']) + ']]>'
+
+
+class Unit(str):
+    """a PI / CDATA section / declaration placed as CONTENT of a raw block: the extractor consumes it as one unit -- so that tags
+    inside it are inert -- only when it starts a line (at most 3 spaces of indentation)"""
+
+
+class Bearing(str):
+    """a nested element that contains a Unit (its lines must not be indented any further)"""
+
+
+def tag_soup(rng, enclosing, n=None, sep=' '):
+    """start and end tags of the ENCLOSING elements (innermost .. outermost) and of other block elements, with words between"""
+    names = list(enclosing) * 2 + [rng.choice(BLOCK_TAGS) for _ in range(2)] + ['div']
+    toks = []
+    for _ in range(n or rng.randint(1, 3)):
+        t = rng.choice(names)
+        if rng.random() < 0.1: t = t.upper()
+        toks.append(rng.choice(['</%s>', '</%s>', '</%s>', '<%s>', '</%s >', '<%s class="c">', '<%s id=i>']) % t)
+        if rng.random() < 0.4: toks.append(rng.choice(['Rw', '*Rx*', 'a > b', '&amp;', '# Rh']))
+    return sep.join(toks)
+
+
+def unit(rng, enclosing):
+    """PI / CDATA / DOCTYPE / comment whose text contains tags (also the closing tags of the elements it sits in)"""
+    k = rng.random()
+    nl = rng.choice([' ', ' ', '\n', '\n\n'])
+    if k < 0.35:
+        soup = tag_soup(rng, enclosing, sep=rng.choice([' ', ' ', '\n']))
+        return Unit('<?' + rng.choice(['php echo "', '', 'php' + nl, 'xml ']) + soup + rng.choice(['"; ', ' ', nl, '']) + '?>')
+    if k < 0.65:
+        soup = tag_soup(rng, enclosing, sep=rng.choice([' ', ' ', '\n']))
+        return Unit('<![CDATA[' + rng.choice([' ', '', nl]) + soup + rng.choice([' ', '', nl, ' ] ']) + ']]>')
+    if k < 0.8:
+        one = rng.choice(['</%s>', '<%s>', '</%s >']) % rng.choice(list(enclosing) + ['div'])
+        # a declaration ends at the FIRST `>`: exactly one tag inside; what follows it on the line is plain data of the block
+        return Unit(rng.choice(['<!DOCTYPE html ' + one, '<!doctype x="' + one + '" y>', '<!DOCTYPE ' + one + ' >']))
+    soup = tag_soup(rng, enclosing, sep=rng.choice([' ', ' ', '\n', '\n\n']))
+    return '<!-- ' + soup + rng.choice([' ', '\n', '']) + '-->'            # a comment is a unit anywhere in a line: plain piece
 
 
 def void(rng):
@@ -79,13 +121,14 @@ def inline_elem(rng):
     return '<' + t + attrs(rng, 0, 3).replace('\n', ' ') + '>' + rng.choice(MD_TEXT[:12] + ['Rx']).split('\n')[0] + '</' + t + '>'
 
 
-def content(rng, depth, maxdepth=3):
+def content(rng, depth, maxdepth=3, enclosing=()):
     """a list of content pieces; each piece is text without leading/trailing newline"""
     out = []
     for _ in range(rng.choice([0, 1, 1, 2, 2, 3, 4])):
         k = rng.random()
-        if k < 0.5: out.append(rng.choice(MD_TEXT))
-        elif k < 0.7 and depth < maxdepth: out.append(element(rng, depth + 1, maxdepth))
+        if k < 0.42: out.append(rng.choice(MD_TEXT))
+        elif k < 0.5: out.append(unit(rng, enclosing))
+        elif k < 0.7 and depth < maxdepth: out.append(element(rng, depth + 1, maxdepth, enclosing=enclosing))
         elif k < 0.78: out.append(comment(rng))
         elif k < 0.84: out.append(inline_elem(rng))
         elif k < 0.88: out.append(void(rng))
@@ -94,22 +137,29 @@ def content(rng, depth, maxdepth=3):
     return out
 
 
-def element(rng, depth=1, maxdepth=3, tag=None):
+def element(rng, depth=1, maxdepth=3, tag=None, enclosing=()):
     tag = tag or rng.choice(BLOCK_TAGS)
-    parts = content(rng, depth, maxdepth)
+    parts = content(rng, depth, maxdepth, (tag,) + tuple(enclosing))
     st, en = start_tag(rng, tag), end_tag(rng, tag)
     if not parts:
         return st + rng.choice(['', '\n', '\n\n']) + en
+    units = any(isinstance(p, Unit) for p in parts)
+    bearing = any(isinstance(p, Bearing) for p in parts)
+    wrap = Bearing if (units or bearing) else str
     style = rng.random()
-    if style < 0.2 and all('\n' not in p for p in parts):
+    if style < 0.2 and all('\n' not in p for p in parts) and not units and not bearing:
         return st + ' '.join(parts) + en                                     # one line
     sep = lambda: rng.choice(['\n', '\n', '\n', '\n\n', '\n\n\n', '\n  \n'])   # blank / whitespace-only lines inside
     body = parts[0]
     for p in parts[1:]:
         body += sep() + p
     ind = rng.choice(['', '', '  ', '    '])
+    if bearing: ind = ''                                   # a Unit further inside must stay within 3 spaces of its line start
+    elif units: ind = rng.choice(['', '', ' ', '  ', '   '])
     if ind: body = '\n'.join(ind + l if l.strip() else l for l in body.split('\n'))
-    return st + rng.choice(['\n', '\n', '\n\n', '']) + body + rng.choice(['\n', '\n', '\n\n']) + en
+    first = rng.choice(['\n', '\n', '\n\n', ''])
+    if isinstance(parts[0], Unit): first = rng.choice(['\n', '\n', '\n\n'])       # ... and must START a line
+    return wrap(st + first + body + rng.choice(['\n', '\n', '\n\n']) + en)
 
 
 def cdata_element(rng):
